@@ -69,6 +69,9 @@ Usable(x) == x \notin {"none", "foreign", "wrongname", "damaged"}
 
 StateValid(a) == Usable(Presented(a, "st")) /\ a.att = Presented(a, "st") /\ a.form = "exact"
 
+\* a.q: query parameters somebody put on the link to the RP's login URL (/login?code_challenge=...): whatever they are, the
+\* authorization URL carries the RP's own client, redirect URI, scopes, state and - with PKCE - the S256 challenge of ITS verifier
+LoginQueries == {"none", "challenge", "method", "state", "redirect", "client", "scope"}
 RulesStart(a, o) ==
   { <<"C17.authurl.params", (o.class = "redirect") => (o.client /\ o.redirect /\ o.scopes /\ o.stateInURL)>>,
     <<"C17.authurl.cookie", (o.class = "redirect") => o.stateCookie>>,                   \* the state in the URL is the one in the signed cookie
